@@ -1,3 +1,88 @@
-/- placeholder, filled in below -/
+/-
+Model of the position predicates that decide whether a node is acted on:
+`codemodder.result.same_line`, `fuzzy_column_match`, `Result.match_location`,
+`SonarResult.match_location` (tuple widening), `DefectDojoResult.match_location`,
+`codemodder.codemods.base_visitor.match_line`, `UtilsMixin.filter_by_path_includes_or_excludes`
+(and its copy in `core_codemods/remove_unused_imports.py`), `filter_by_result`, `node_is_selected`,
+`FileContext.get_findings_for_location`.
+Positions follow libcst: 1-based lines, 0-based columns, end exclusive.
+-/
 namespace CM.Location
+
+/-- a libcst `CodeRange` -/
+structure Pos where
+  sl : Int
+  sc : Int
+  el : Int
+  ec : Int
+  deriving DecidableEq, Repr
+
+/-- a result `Location` (start/end `LineInfo`) -/
+structure Loc where
+  sl : Int
+  sc : Int
+  el : Int
+  ec : Int
+  deriving DecidableEq, Repr
+
+def sameLine (p : Pos) (l : Loc) : Bool := p.sl == l.sl && p.el == l.el
+
+def fuzzyColumnMatch (p : Pos) (l : Loc) : Bool :=
+  (p.sc ≤ l.sc && l.sc ≤ p.ec + 1) && (p.sc ≤ l.ec && l.ec ≤ p.ec + 1)
+
+/-- `Result.match_location` for one location -/
+def matchLoc1 (p : Pos) (l : Loc) : Bool :=
+  sameLine p l && (p.sc == l.sc - 1 || p.sc == l.sc) && (p.ec == l.ec - 1 || p.ec == l.ec)
+
+/-- `Result.match_location` -/
+def matchLoc (p : Pos) (locs : List Loc) : Bool := locs.any (matchLoc1 p)
+
+/-- `SonarResult.match_location`: tuples are widened by one column on both sides -/
+def sonarMatchLoc (isTuple : Bool) (p : Pos) (locs : List Loc) : Bool :=
+  if isTuple then matchLoc { p with sc := p.sc - 1, ec := p.ec + 1 } locs else matchLoc p locs
+
+def ddMatch1 (p : Pos) (l : Loc) : Bool := p.sl ≤ l.sl && l.sl ≤ p.el
+
+/-- `DefectDojoResult.match_location`: the finding's line is inside the node's line range -/
+def ddMatchLoc (p : Pos) (locs : List Loc) : Bool := locs.any (ddMatch1 p)
+
+/-- `match_line(pos, line)` -/
+def matchLine (p : Pos) (line : Int) : Bool := p.sl == line && p.el == line
+
+/-- `filter_by_path_includes_or_excludes` -/
+def lineFilter (excl incl : List Int) (p : Pos) : Bool :=
+  if excl.any (matchLine p) then false
+  else if !incl.isEmpty then incl.any (matchLine p)
+  else true
+
+inductive Variant where | generic | sonar | defectdojo
+  deriving DecidableEq, Repr
+
+def matchVariant (v : Variant) (isTuple : Bool) (p : Pos) (locs : List Loc) : Bool :=
+  match v with
+  | .generic => matchLoc p locs
+  | .sonar => sonarMatchLoc isTuple p locs
+  | .defectdojo => ddMatchLoc p locs
+
+/-- `filter_by_result`: `results is None or any(results_for_node(node))` -/
+def filterByResult (v : Variant) (isTuple : Bool) (results : Option (List (List Loc))) (p : Pos) : Bool :=
+  match results with
+  | none => true
+  | some rs => rs.any (matchVariant v isTuple p)
+
+/-- `node_is_selected` -/
+def nodeIsSelected (v : Variant) (isTuple : Bool) (results : Option (List (List Loc)))
+    (excl incl : List Int) (p : Pos) : Bool :=
+  filterByResult v isTuple results p && lineFilter excl incl p
+
+def covers1 (line : Int) (l : Loc) : Bool := l.sl ≤ line && line ≤ l.el
+
+/-- `any(location.start.line <= line_number <= location.end.line for location in result.locations)` -/
+def coversLine (locs : List Loc) (line : Int) : Bool := locs.any (covers1 line)
+
+/-- `FileContext.get_findings_for_location(line)`: the findings (by index, `none` = result without
+a finding object) of the results that have a location whose line range covers `line` -/
+def findingsForLine {φ} (results : List (List Loc × Option φ)) (line : Int) : List φ :=
+  results.filterMap fun (locs, f) => if coversLine locs line then f else none
+
 end CM.Location
